@@ -324,7 +324,32 @@ func init() {
 		extraNames := []genName{{2, []byte("onion")}, {2, []byte(".onion")}, {2, []byte("a.onion")}, {2, []byte(strings.Repeat("a", 56) + ".onion")}, {2, []byte("x." + strings.Repeat("b", 16) + ".onion")},
 			{1, []byte("<")}, {1, []byte(")")}, {1, []byte("<a@b>")}, {1, []byte("a@b (c)")}, {2, []byte(".")}, {2, []byte("..")}, {2, []byte("*")}, {2, []byte("*.")}, {2, []byte("in-addr.arpa")},
 			{2, []byte("1.in-addr.arpa")}, {2, []byte("x.ip6.arpa")}, {6, []byte(":")}, {6, []byte("%")}, {6, []byte("http://%zz/")}, {7, []byte{}}, {7, []byte{1, 2, 3}}, {7, []byte{1, 2, 3, 4, 5}}}
+		// characters that decoders skip or treat specially (base32/base64 skip CR and LF; '=' is padding), in labels of
+		// exactly the lengths the onion helpers look for
+		for _, ch := range []string{"\n", "\r", "=", " ", "\x00", "\t"} {
+			for _, n := range []int{16, 56} {
+				extraNames = append(extraNames, genName{2, []byte(strings.Repeat(ch, n) + ".onion")}, genName{2, []byte("www." + strings.Repeat(ch, n) + ".onion")},
+					genName{2, []byte(strings.Repeat("a", n-8) + strings.Repeat(ch, 8) + ".onion")})
+			}
+		}
 		pool := append(append([]genName{}, namePool...), extraNames...)
+		// every extra name also alone, as the only SAN entry and as the common name
+		for _, en := range extraNames {
+			for _, inCN := range []bool{false, true} {
+				t := leafTemplate()
+				t.DNSNames = nil
+				t.PolicyIdentifiers = append(t.PolicyIdentifiers, []int{2, 23, 140, 1, 2, 2})
+				if inCN && en.tag == 2 {
+					t.Subject.CommonName = string(en.value)
+				}
+				t.ExtraExtensions = append(t.ExtraExtensions, generalNamesExt(asn1SAN, []genName{en}, false))
+				if der, _, err := issue(t, nil); err == nil {
+					lintCert(der, "general names", map[string]interface{}{"name": fmt.Sprintf("[%d]%q", en.tag, en.value), "in_common_name": inCN})
+				} else {
+					rejected++
+				}
+			}
+		}
 		nNames := 150
 		if tier() == "thorough" {
 			nNames = 2500
